@@ -140,10 +140,12 @@ def dmrg_matvec_python(A, x, y0 = None, nswp = 20, eps = 1e-12, rmax = 32768, ki
               else:
                   delta_cores[k] = 0
                 
-              if delta_cores[k]/delta_cores_prev[k] >= 1 and delta_cores[k]>eps:
+              # ratio of the last two updates (a zero previous update, e.g. for a zero product, counts as no progress)
+              delta_ratio = delta_cores[k]/delta_cores_prev[k] if delta_cores_prev[k] != 0 else float('inf')
+              if delta_ratio >= 1 and delta_cores[k]>eps:
                   r_enlarge[k] += 1
                   
-              if delta_cores[k]/delta_cores_prev[k] < 0.1 and delta_cores[k]<eps:
+              if delta_ratio < 0.1 and delta_cores[k]<eps:
                   r_enlarge[k] = max(1,r_enlarge[k]-1)
               
               # SVD 
@@ -320,10 +322,12 @@ def dmrg_hadamard_python(z, x, y0 = None, nswp = 20, eps = 1e-12, rmax = 32768, 
               else:
                   delta_cores[k] = 0
                 
-              if delta_cores[k]/delta_cores_prev[k] >= 1 and delta_cores[k]>eps:
+              # ratio of the last two updates (a zero previous update, e.g. for a zero product, counts as no progress)
+              delta_ratio = delta_cores[k]/delta_cores_prev[k] if delta_cores_prev[k] != 0 else float('inf')
+              if delta_ratio >= 1 and delta_cores[k]>eps:
                   r_enlarge[k] += 1
                   
-              if delta_cores[k]/delta_cores_prev[k] < 0.1 and delta_cores[k]<eps:
+              if delta_ratio < 0.1 and delta_cores[k]<eps:
                   r_enlarge[k] = max(1,r_enlarge[k]-1)
               
               # SVD 
